@@ -53,8 +53,12 @@ impl<T: RefCnt> HybridProtection<T> {
         let confirm = storage.load(SeqCst);
         if ptr == confirm {
             // Successfully got a debt
+            //
+            // Use the pointer from the confirming read: the first (relaxed) read may have returned
+            // a pointer to an already freed value whose address got reused by the current one. The
+            // addresses are equal then, but only `confirm` is derived from the live allocation.
             verif_step!(ATTEMPT_CONFIRMED);
-            Some(unsafe { Self::new(ptr, Some(debt)) })
+            Some(unsafe { Self::new(confirm, Some(debt)) })
         } else if debt.pay::<T>(ptr) {
             // It changed in the meantime, we return the debt (that is on the outdated pointer,
             // possibly destroyed) and fail.
